@@ -493,6 +493,11 @@ where
                 return Err(Error::CommitNotFound(*commit).into());
             }
 
+            // Records were collected newest first, return
+            // them in log order so that they can be
+            // re-applied to revert the rewind
+            records.reverse();
+
             (records, tree)
         };
 
